@@ -83,9 +83,9 @@ type c17Vote struct {
 // real VerifyVoteExtension / PrepareProposal / ProcessProposal / PreBlocker handlers on the same state,
 // each under recover; it then mutates every injected list (change / drop / add / reorder an element) and
 // records ProcessProposal's verdict.
-func RunC17(casesPath, tracePath, statsPath string, seed int64) error {
+func RunC17(casesPath, tracePath, statsPath string, seed int64, allReg bool) error {
 	rng := rand.New(rand.NewSource(seed))
-	c, err := NewChain(ChainOpts{NumVals: 3, ValTokens: []int64{4_000_000_000, 2_000_000_000, 1_000_000_000}, NumActors: 2, RegisterEVM: true, RegisterOnlyFirst: true, VoteExtEnable: 1})
+	c, err := NewChain(ChainOpts{NumVals: 3, ValTokens: []int64{4_000_000_000, 2_000_000_000, 1_000_000_000}, NumActors: 2, RegisterEVM: true, RegisterOnlyFirst: !allReg, VoteExtEnable: 1})
 	if err != nil {
 		return err
 	}
@@ -100,17 +100,27 @@ func RunC17(casesPath, tracePath, statsPath string, seed int64) error {
 		a := crypto.PubkeyToAddress(*pub)
 		evmAddr[v.Name] = a.Bytes()
 	}
-	// v0 registers its real EVM address (overwrite the placeholder), then two checkpoints exist after a power shift
-	if err := c.App.BridgeKeeper.SetEVMAddressByOperator(c.Ctx, c.Vals[0].ValAddr.String(), evmAddr["v0"]); err != nil {
-		return err
+	// v0 registers its real EVM address (overwrite the placeholder), then two checkpoints exist after a power shift.
+	// allReg: all three validators are registered from the start and the power shift makes v2 overtake v1, so that the
+	// previous and the current checkpoint order the validators differently (signature slots follow the PREVIOUS set)
+	for _, v := range c.Vals {
+		if v.Name == "v0" || allReg {
+			if err := c.App.BridgeKeeper.SetEVMAddressByOperator(c.Ctx, v.ValAddr.String(), evmAddr[v.Name]); err != nil {
+				return err
+			}
+		}
 	}
 	for i := 0; i < 3; i++ {
 		if b, e := c.Block(2 * time.Second); !b.Ok || !e.Ok {
 			return fmt.Errorf("setup block failed: %s %s", b.Err, e.Err)
 		}
 	}
+	shiftTo := 0
+	if allReg {
+		shiftTo = 2
+	}
 	c.BeginBlock(2 * time.Second)
-	if _, r := c.Exec(stakingtypes.NewMsgDelegate(c.Actors[0].Addr.String(), c.Vals[0].ValAddr.String(), sdk.NewInt64Coin(Denom, 1_500_000_000))); !r.Ok {
+	if _, r := c.Exec(stakingtypes.NewMsgDelegate(c.Actors[0].Addr.String(), c.Vals[shiftTo].ValAddr.String(), sdk.NewInt64Coin(Denom, 1_500_000_000))); !r.Ok {
 		return fmt.Errorf("setup delegate: %s", r.Err)
 	}
 	c.EndBlock()
